@@ -40,25 +40,3 @@ Proof.
   intros m Hm. rewrite forallb_forall in H. exact (H m Hm).
 Qed.
 
-(** TODAY'S TABLE: the honest statement "every row is right" is refuted, by
-    exactly these rows (F11: the two _nanoseconds rows fed by .seconds();
-    F10: the four boolean rows, format_bool! maps true to 0). *)
-Lemma table_all_rows_ok_refuted :
-  defective_rows =
-    [("offset_from_master", 2); ("mean_delay", 2); ("time_traceable", 1);
-     ("frequency_traceable", 1); ("ptp_timescale", 1); ("path_trace_enable", 1)]%string.
-Proof. vm_compute. reflexivity. Qed.
-
-Lemma format_bool_refuted : bool_enc_true = 0 /\ bool_enc_false = 1.
-Proof. split; reflexivity. Qed.
-
-Lemma nanoseconds_name_refuted :
-  exists m, In m metric_table /\ m_name m = "offset_from_master"%string /\
-            m_unit m = Some Nanoseconds /\
-            m_src m = ["current_ds.offset_from_master.seconds()"%string] /\
-            src_unit "current_ds.offset_from_master.seconds()" = Some (Some Seconds).
-Proof.
-  eexists. split.
-  - do 8 right. left. reflexivity.
-  - cbn. repeat split; reflexivity.
-Qed.
